@@ -170,3 +170,19 @@ for skip in (None, []):
              ensures=[('one-record-per-row-in-order', 'len(result) == 3 and [r["name"] for r in result] == ["A", "B", "C"]'),
                       ('values', 'all(result[i]["potentialenergy"] == cell(io, i, 1) for i in range(3))')],
              cross_check=False)
+
+
+# an explicit model column wins over the preset, whichever column comes first
+for order in (('statmech_model', 'vib_model'), ('vib_model', 'statmech_model')):
+    hdr = ['name'] + list(order)
+    cells = {'statmech_model': Const('IdealGas'), 'vib_model': Const('QRRHOVib')}
+    contract(X + 'read_excel', P, label='explicit-model-and-preset[%s-first]' % order[0],
+             args=dict(io=Table(hdr, [[Const('A')] + [cells[h] for h in order]])),
+             ensures=[('explicit-vibrational-model-kept', "result[0]['vib_model'].__name__ == 'QRRHOVib'"),
+                      ('preset-fills-the-rest', "result[0]['trans_model'].__name__ == 'FreeTrans' and result[0]['model'].__name__ == 'StatMech'")],
+             cross_check=False)
+for f, key, alt in (('set_trans_model', 'trans_model', 'FreeTrans'), ('set_vib_model', 'vib_model', 'QRRHOVib'),
+                    ('set_rot_model', 'rot_model', 'RigidRotor'), ('set_elec_model', 'elec_model', 'GroundStateElec'),
+                    ('set_nucl_model', 'nucl_model', 'EmptyNucl')):
+    contract(X + f, P, label='replaces-an-earlier-entry', args=dict(model=Const(alt), output_structure=DictOf({key: Const('something else')})),
+             ensures=["output_structure[%r].__name__ == %r" % (key, alt)], cross_check=False)
